@@ -876,6 +876,16 @@ def r05k(ck, prog, functions=None):
                 for n in F.body.find("BinaryOperator"):
                     if n.d["op"] == "=" and n.kids[0].strip().text() == src_txt:
                         movers.append(n)
+                # the owner's destructor: the function also releases the container the slot lives in (free(lb->lines), free(lb),
+                # MFREE(msa->sequences)) - the alias is how the destructor walks the elements, nobody frees them again
+                import re as _re
+                base_txt = _re.sub(r"\[[^\]]*\]$", "", src_txt)                 # lb->lines[i] -> lb->lines
+                root_txt = base_txt.split("->")[0].split(".")[0]
+                if any((_is_releaser(c_.callee) or c_.callee == "free") and c_.args and c_.args[0].strip(casts=True).text() in (base_txt, root_txt)
+                       for c_ in F.body.find("CallExpr")):
+                    ck.inst("R05k", site(prog, dn, src_txt), "%s: local borrows %s inside the destructor of its owner" % (F.name, src_txt), prog.config)
+                    n_inst += 1
+                    continue
                 # ... or if the owner itself is released / the slot's container is freed right after (free(p->x) idiom)
                 barriers = [cfg.position(x) for x in others + movers if x is not dn]
                 barriers = [b for b in barriers if b is not None]
